@@ -349,6 +349,18 @@ C09_Results(o) ==
                           /\ (o.cfg.hmac = "off" => d.stored.hm = "none")
                           /\ (outs # <<>> => d.prfEnabled = "true"))
 
+\* inputs that apply to the credential used (its own entry, otherwise the default ones) are evaluated: a successful
+\* ceremony that had applicable inputs, the capability and a credential with secrets returns a first result
+ApplicableInputs(o, cid) ==
+    /\ Req(o).prf.given
+    /\ \/ Req(o).prf.eval # "absent"
+       \/ IsGa(o) /\ Req(o).prf.byCredGiven /\ \E i \in 1..Len(Req(o).prf.byCred) : Req(o).prf.byCred[i].id = cid
+C09_ResultsPresent(o) ==
+    (EndOk(o) /\ Lower(o) /\ o.cfg.hmac # "off") =>
+        LET d == EndD(o) IN
+        /\ (IsGa(o) /\ ApplicableInputs(o, d.cred) /\ d.stored.hm # "none") => d.prf1.sec # "absent"
+        /\ (IsMc(o) /\ o.cfg.mc /\ ApplicableInputs(o, d.cred) /\ d.prfEnabled = "true") => d.prf1.sec # "absent"
+
 -----------------------------------------------------------------------------
 (* client level: C01 end to end, C02/C03 client data, C04/C11 mappings, C09 validation *)
 
@@ -497,6 +509,7 @@ Violated(o) ==
     \cup (IF ~C03_Assertion(o) THEN {"C03.Assertion"} ELSE {})
     \cup (IF ~C03_NoEligibleCredential(o) THEN {"C03.NoEligibleCredential"} ELSE {})
     \cup (IF ~C09_Results(o) THEN {"C09.Results"} ELSE {})
+    \cup (IF ~C09_ResultsPresent(o) THEN {"C09.ResultsPresent"} ELSE {})
     \cup (IF ~C06_NoSecretInOutput(o) THEN {"C06.NoSecretInOutput"} ELSE {})
     \cup (IF ~C06_PublicParametersOnly(o) THEN {"C06.PublicParametersOnly"} ELSE {})
     \cup (IF ~C14_EmittedReparses(o) THEN {"C14.EmittedReparses"} ELSE {})
